@@ -72,7 +72,7 @@ def run_into(R, tier):
             R.machinery(f"TLC Edits: {bad[0].violated or bad[0].error}")
             return
         jobs = [dict(rec=rec, idx=i) for i, rec in enumerate(exports)]
-        for w in driverprops.pool_map(_work, jobs):
+        for w in driverprops.pool_map_shared(_work, jobs):
             rec = exports[w["idx"]]
             R.case(("edit", kind, wv, w["idx"]))
             if w["outcome"] in ("verdict", "fatal"):
